@@ -2,7 +2,7 @@
    Model: theories/Rel.v (tied to pymwp/relation.py, matrix.py by the correspondence run). *)
 From Coq Require Import String List Bool.
 From PM Require Import Semiring Poly Poly_sem Rel Calculus Rel_sem Sem_stmts.
-From PM Require Rel_hom Rel_ops_closed Rel_fix_closed.
+From PM Require Rel_hom Rel_ops_closed Rel_fix_closed Rel_persist.
 Import ListNotations.
 
 (* variable-list unification: both operands keep their meaning (identity on missing variables),
@@ -49,7 +49,25 @@ Theorem C10_fixpoint_is_closure : forall fuel r f, wf_rel r -> rel_pwf r -> rel_
          (forall i, In i (rvars r) -> i <> x -> rval f c i x = O)).
 Proof. exact Rel_fix_closed.rel_fixpoint_sem. Qed.
 
+(* "an infinity in an operand at some choice is still present in the result at that choice":
+   true for sums ... *)
+Theorem C10_infinity_persists_in_sum : forall a b c x y, wf_rel a -> wf_rel b ->
+  (rval a c x y = I \/ rval b c x y = I) -> rval (rel_sum a b) c x y = I.
+Proof. exact Rel_persist.infinity_persists_sum. Qed.
+
+(* ... but REFUTED for composition, on relations the analysis reaches (witness replayed on the real
+   code by tools/props/c10.py; recorded as an open finding, see known_findings.json): the product of
+   the zero polynomial with an entry that fails only at some choices has no term at the others, and
+   no term times infinity is no term. *)
+Theorem C10_infinity_persists_in_composition_refuted :
+  exists a b c, wf_rel a /\ wf_rel b /\ rel_pwf a /\ rel_pwf b /\
+    (exists x y, In x (rvars b) /\ In y (rvars b) /\ rval b c x y = I) /\
+    clean (rel_comp a b) c.
+Proof. exact Rel_persist.infinity_persists_comp_refuted. Qed.
+
 Print Assumptions C10_homogenisation.
+Print Assumptions C10_infinity_persists_in_sum.
+Print Assumptions C10_infinity_persists_in_composition_refuted.
 Print Assumptions C10_sum.
 Print Assumptions C10_composition_exact.
 Print Assumptions C10_composition_is_matrix_product.
